@@ -3,6 +3,7 @@ package props
 import (
 	"fmt"
 	"math"
+	"reflect"
 	"sort"
 	"strings"
 	"testing"
@@ -358,6 +359,15 @@ func checkC11(c C11Case, r *Rec) *Violation {
 	var ctx *eval.Ctx
 	if o := Safe(func() (eval.Value, error) { ctx = eval.NewCtxFromVars(cc, vals); return nil, nil }); o.Panic != nil {
 		return Violf("C11: NewCtxFromVars panics: %v\nkey map=%v", o, cc.VariableKeyMap)
+	}
+	// building a context reads the caller's bindings, it does not rewrite them
+	for i, n := range c.Names {
+		if now, ok := vals[n]; !ok || fmt.Sprintf("%T", now) != fmt.Sprintf("%T", c.Vals[i].X) || !reflect.DeepEqual(now, c.Vals[i].X) {
+			return Violf("C11: NewCtxFromVars changed the caller's bindings map: %q was %v (%T), is now %v (%T)", n, c.Vals[i].X, c.Vals[i].X, now, now)
+		}
+	}
+	if len(vals) != len(c.Names)+len(c.Extra) {
+		return Violf("C11: NewCtxFromVars changed the size of the caller's bindings map: %d entries, was %d", len(vals), len(c.Names)+len(c.Extra))
 	}
 	fetcher := fmt.Sprintf("%T", ctx.VariableFetcher)
 	describe := func() string {
